@@ -34,13 +34,22 @@ Obs(e) == [idx |-> SetOf(e.idx), byDist |-> SetOf(e.byDist), far |-> e.far,
            range |-> e.range, pay |-> e.pay]
 Obs0 == [idx |-> {}, byDist |-> {}, far |-> 0, tasks |-> <<>>, notes |-> <<>>, range |-> 0, pay |-> 0]
 RbOf(e) == [k \in Key |-> IF k <= Len(e.rb) THEN e.rb[k] ELSE 0]
+\* per key: e.ty type class listed ("-" not listed, "C" Chunk, "S" Scratchpad, "N" NonChunk(hash)); e.rk kind of the
+\* bytes served ("-" nothing, "C" chunk, "S" scratchpad, "T" transaction, "R" register, "?" anything else);
+\* e.hm = 1 iff the listed content hash is XorName::from_content of the bytes served
+TokOf(e) == [k \in Key |-> LET t == e.ty[k]  r == e.rk[k] IN
+                \/ t = "-" \/ r = "-"
+                \/ t = "C" /\ r = "C"
+                \/ t = "S" /\ r = "S"
+                \/ t = "N" /\ r \in {"S", "T", "R"} /\ e.hm[k] = 1]
 
 Known == {"Reset", "Skipped", "PutVerified", "Remove", "RunTask", "FailTask", "HandleNote", "Get", "SetRange", "Cleanup",
           "PaymentReceived", "Quote", "Restart"}
 
 \* position of the released body in the observed list of parked bodies before the step
 StepOf(e) == [ev |-> e.ev, s |-> prev, r |-> [st |-> Obs(e), res |-> e.res, out |-> e.out], g |-> g, g2 |-> 0, rb |-> RbOf(e),
-              k |-> e.k, v |-> e.v, i |-> e.i, ni |-> e.ni, rg |-> e.rg, thr |-> thr]
+              k |-> e.k, v |-> e.v, i |-> e.i, ni |-> e.ni, rg |-> e.rg, thr |-> thr,
+              has |-> SetOf(e.has), addrs |-> SetOf(e.addrs), tok |-> TokOf(e)]
 
 \* ---- the model run alongside (drift)
 Observables(s) == [idx |-> s.idx, byDist |-> s.byDist, far |-> s.far, cache |-> CacheKeys(s.cache),
@@ -61,7 +70,8 @@ ModelStep(ms, e) ==
        ELSE ModelResults(x)
 
 Init == /\ l = 1 /\ prev = Obs0 /\ g = Ghost0 /\ m = [ok |-> TRUE, st |-> Init0]
-        /\ viol = {} /\ known = {} /\ drift = {} /\ stats = [steps |-> 0, settled |-> 0, puts |-> 0] /\ thr = Threshold
+        /\ viol = {} /\ known = {} /\ drift = {} /\ stats = [steps |-> 0, settled |-> 0, puts |-> 0, heldEvict |-> 0, listedC |-> 0, listedS |-> 0, listedN |-> 0,
+                                                                      scratchAsN |-> 0, staleType |-> 0] /\ thr = Threshold
 Next ==
     /\ l <= N
     /\ l' = l + 1
@@ -90,7 +100,16 @@ Next ==
                /\ UNCHANGED thr
                /\ stats' = [steps |-> stats.steps + 1,
                             settled |-> stats.settled + (IF Settled(Obs(e)) THEN 1 ELSE 0),
-                            puts |-> stats.puts + (IF e.ev = "PutVerified" THEN 1 ELSE 0)]
+                            puts |-> stats.puts + (IF e.ev = "PutVerified" THEN 1 ELSE 0),
+                            \* a put at capacity of a key already held that evicted the farthest record (allowed, counted)
+                            heldEvict |-> stats.heldEvict + (IF e.ev = "PutVerified" /\ e.k \in prev.idx /\ Lost(x) # {} THEN 1 ELSE 0),
+                            \* type classes judged in settled states; scratchpads listed by content hash (restart scan)
+                            listedC |-> stats.listedC + (IF Settled(Obs(e)) THEN Cardinality({k \in Key : e.ty[k] = "C"}) ELSE 0),
+                            listedS |-> stats.listedS + (IF Settled(Obs(e)) THEN Cardinality({k \in Key : e.ty[k] = "S"}) ELSE 0),
+                            listedN |-> stats.listedN + (IF Settled(Obs(e)) THEN Cardinality({k \in Key : e.ty[k] = "N"}) ELSE 0),
+                            scratchAsN |-> stats.scratchAsN + (IF Settled(Obs(e)) THEN Cardinality({k \in Key : e.ty[k] = "N" /\ e.rk[k] = "S"}) ELSE 0),
+                            \* settled states in which a key's listed type is not that of the value served and the clause is switched off
+                            staleType |-> stats.staleType + (IF Settled(Obs(e)) THEN Cardinality({k \in Key : k \in Obs(e).idx /\ ~x.tok[k] /\ g2.staleNote[k]}) ELSE 0)]
 Spec == Init /\ [][Next]_vars
 
 Report == l = N + 1 =>
